@@ -3,6 +3,9 @@ CONSTANTS
   MaxD = 5
   MaxS = 4
   MaxMsgs = 1
+  NbSlots <- NoSlots
+  Outs <- AllOuts
+  RecvToggles = TRUE
   Mech = "asbuilt"
   Obs <- ObsNone
 INVARIANTS FdFieldValidOrMinus1 OneOwnerPerDescriptor NoOrphanDescriptor AllDeletedMeansAllClosed
